@@ -1,12 +1,14 @@
 """Curves drawn from the choice sequence: catalogued ones and toy curves
 whose group the reference law enumerates.
 
-A toy curve is (p, a, b) with p a prime <= 251 and a non-zero discriminant;
-the reference counts its points, takes the largest prime-order subgroup n,
-the cofactor h and a generator h*P. It is *kept* only when n > 4*sqrt(p):
-the range in which SEC 1's cofactor formula -- the one ``Curve.__init__``
-checks -- is exact, so that a refusal by the constructor outside it is
-legitimate and one inside it is worth a probe (never an assertion).
+A toy curve is (p, a, b) with p a prime <= 251 (3, 5 and 7 drawn with a
+weight of their own: 5 and 7 are the x of the in-band spellings of infinity)
+and a non-zero discriminant; the reference counts its points, takes the
+largest prime-order subgroup n, the cofactor h and a generator h*P. It is
+kept when ``Curve(p, a, b, G, n, h)`` accepts it. SEC 1's cofactor formula --
+the one the constructor checks -- is exact when n > 4*sqrt(p): a refusal
+inside that range is worth a probe, one outside it is legitimate; neither is
+ever asserted. ``strict`` keeps only curves inside the range.
 """
 
 from __future__ import annotations
@@ -19,7 +21,8 @@ from btclib.exceptions import BTClibException
 from btcsim.core.ctx import Ctx
 from btcsim.ref.ec import RefCurve, is_prime
 
-TOY_PRIMES = [p for p in range(5, 252) if is_prime(p)]
+TINY_PRIMES = [3, 5, 7]
+TOY_PRIMES = [p for p in range(3, 252) if is_prime(p)]
 FALLBACK_TOY = (23, 5, 1, (0, 1), 31, 1)  # ec23_31 of the test suite, p % 4 == 3, h == 1
 ToyParams = tuple[int, int, int, tuple[int, int], int, int]
 
@@ -34,21 +37,21 @@ def catalogued(name: str) -> tuple[Curve, RefCurve]:
 
 
 def _toy_params(ctx: Ctx, label: str, p_ok: Callable[[int], bool]) -> ToyParams | None:
-    """One draw of (p, a, b) and, by the reference law, its subgroup."""
+    """One draw of (p, a, b) and, by the reference law, its largest prime-order subgroup."""
     ch = ctx.ch
-    p = ch.pick([q for q in TOY_PRIMES if p_ok(q)], label + ".p")
+    tiny = [q for q in TINY_PRIMES if p_ok(q)]
+    p = ch.pick(tiny if tiny and ch.chance(1, 4, label + ".tiny?") else [q for q in TOY_PRIMES if p_ok(q)], label + ".p")
     a, b = ch.draw(p, label + ".a"), ch.draw(p, label + ".b")
     if (4 * a**3 + 27 * b * b) % p == 0:
         return None
     ref = RefCurve(p, a, b)
     pts = ref.all_points()
     order = len(pts) + 1
+    if order < 3:
+        return None
     n = max(q for q in range(2, order + 1) if order % q == 0 and is_prime(q))
     h = order // n
-    if n * n <= 16 * p:
-        ctx.probe("toy:outside-cofactor-range")
-        return None
-    start = ch.draw(len(pts), label + ".gen")
+    start = ch.draw(len(pts), label + ".gen") if pts else 0
     for i in range(len(pts)):
         G = ref.mul(h, pts[(start + i) % len(pts)])
         if G is not None:
@@ -57,25 +60,29 @@ def _toy_params(ctx: Ctx, label: str, p_ok: Callable[[int], bool]) -> ToyParams 
 
 
 def toy_curve(
-    ctx: Ctx, label: str = "toy", p_ok: Callable[[int], bool] = lambda p: True,
-    keep: Callable[[ToyParams], bool] = lambda t: True, tries: int = 16,
+    ctx: Ctx, label: str = "toy", p_ok: Callable[[int], bool] = lambda p: True, strict: bool = False, tries: int = 16,
 ) -> tuple[Curve, RefCurve, ToyParams]:
-    """A kept toy curve, as (btclib Curve, reference, parameters).
+    """A toy curve the constructor accepts, as (btclib Curve, reference, parameters).
 
-    A refusal by ``Curve(...)`` inside the kept range is a probe; after
-    ``tries`` unlucky draws the fixed fallback curve is used.
+    After ``tries`` unlucky draws the fixed fallback curve is used.
     """
     for _ in range(tries):
         t = _toy_params(ctx, label, p_ok)
-        if t is None or not keep(t):
+        if t is None:
+            continue
+        in_range = t[4] * t[4] > 16 * t[0]
+        if strict and not in_range:
+            ctx.probe("toy:outside-cofactor-range")
             continue
         try:
             ec = Curve(*t, weakness_check=False)
         except BTClibException as e:
-            ctx.probe("toy:refused-by-constructor:" + ("n=p" if "n=p" in str(e) else "other"))
-            ctx.note("toy-refused", t, type(e).__name__, str(e)[:40])
+            why = "n=p" if "n=p" in str(e) else "cofactor" if "cofactor" in str(e) else "other"
+            ctx.probe(f"toy:refused-{'inside' if in_range else 'outside'}-cofactor-range:{why}")
             continue
-        ctx.probe("toy:kept")
+        ctx.probe("toy:kept" if in_range else "toy:kept-outside-cofactor-range")
+        if t[0] <= 7:
+            ctx.probe(f"toy:kept-p={t[0]}")
         return ec, RefCurve(t[0], t[1], t[2], t[3], t[4]), t
     ctx.probe("toy:fallback")
     t = FALLBACK_TOY
